@@ -9,6 +9,10 @@ From Clemens Require Import Base.Res Base.Word Base.Bytes Pos.Types Pos.Position
   Pos.ZobristInst Uci.Game.
 From Clemens.C03Text Require Import SquareText GenClass MoveText GameReplay TextExamples.
 From Clemens.C10Inv Require InvReach.
+From Clemens Require Import Rules.Abs.
+From Clemens.C02Refine Require Import MakeRefines.
+From Clemens.C03Recon Require Import FideText MoveSound Recon ReconExamples.
+From Clemens Require Import Rules.Fide.
 From ClemensGen Require Import GoConsts.
 Import ListNotations.
 Open Scope string_scope.
@@ -29,7 +33,7 @@ Proof. exact move_text_roundtrip. Qed.
 Print Assumptions C03_move_text_roundtrip.
 
 Theorem C03_printed_move_makes_the_same_move : forall K tbl p ls m s,
-  Inv p -> legal_moves K p = Ok ls -> In m ls -> move_to_string m = Ok s ->
+  Inv p -> Position.legal_moves K p = Ok ls -> In m ls -> move_to_string m = Ok s ->
   move_from_string tbl p s = Ok m /\ make_move_from_string K tbl p s = make_move K p m.
 Proof. exact legal_move_text_roundtrip. Qed.
 Print Assumptions C03_printed_move_makes_the_same_move.
@@ -107,3 +111,65 @@ Proof.
         (conj castle_all_roundtrip (conj ep_all_roundtrip promo_all_roundtrip)))).
 Qed.
 Print Assumptions C03_hyps_met.
+
+(* ================= end to end, against the independent FIDE specification (Rules/Fide.v) ================= *)
+(* [fide_text fm]: the UCI text of a specification move, from coordinates alone (file letter, rank digit, promotion
+   letter); it is what Move.String prints for any move word that decodes to fm *)
+Theorem C03_fide_text_is_printed_text : forall m, move_to_string m = Ok (fide_text (decode m)).
+Proof. exact fide_text_decode. Qed.
+Print Assumptions C03_fide_text_is_printed_text.
+
+(* every FIDE-legal move, written the way a GUI writes it (castling as a king move of two files, en passant as a plain
+   pawn move, promotion by a suffix - the specification's move carries no kind), is accepted and yields the FIDE successor *)
+Theorem C03_uci_move_sound : forall K tbl p fm,
+  keys_wf K = true -> Inv p -> In fm (Fide.legal_moves (abs p)) ->
+  exists m q,
+    move_from_string tbl p (fide_text fm) = Ok m /\ decode m = fm /\
+    (exists ls, Position.legal_moves K p = Ok ls /\ In m ls) /\
+    make_move_from_string K tbl p (fide_text fm) = Ok q /\ make_move K p m = Ok q /\ Inv q /\
+    b_at (abs q) = b_at (apply (abs p) fm) /\ b_turn (abs q) = b_turn (apply (abs p) fm) /\
+    b_rights (abs q) = b_rights (apply (abs p) fm) /\ b_ep (abs q) = b_ep (apply (abs p) fm) /\
+    (hmc p < 255 -> ply p < 255 -> ply_parity p -> abs q = apply (abs p) fm).
+Proof. exact uci_move_sound. Qed.
+Print Assumptions C03_uci_move_sound.
+
+(* New() is the FIDE initial position *)
+Theorem C03_start_is_initial : forall K p0, new_position K = Ok p0 -> abs p0 = initial.
+Proof. exact start_abs_initial. Qed.
+Print Assumptions C03_start_is_initial.
+
+(* [fide_game s fms s']: fms are played from s, each FIDE-legal where it is played; s' is the resulting state.
+   `position startpos moves <texts>` gives exactly s' (up to 255 plies: all six components incl. the byte counters) *)
+Theorem C03_position_startpos_reconstructs : forall K tbl hist_size, keys_wf K = true -> forall p0 fms s,
+  new_position K = Ok p0 -> fide_game (abs p0) fms s ->
+  (List.length fms <= 255)%nat -> N.of_nat (List.length fms) <= hist_size ->
+  exists g, new_position_cmd K tbl hist_size (w_startpos :: w_moves :: map fide_text fms) = NPSet g /\
+    abs (g_pos g) = s /\ Inv (g_pos g) /\ List.length (g_hist g) = List.length fms /\
+    exists ms qs, game_line K p0 ms qs /\ map decode ms = fms /\
+                  g_pos g = last qs p0 /\ g_hist g = map hash qs.
+Proof. exact position_startpos_reconstructs. Qed.
+Print Assumptions C03_position_startpos_reconstructs.
+
+Theorem C03_position_fen_reconstructs : forall K tbl hist_size, keys_wf K = true -> forall six p0 fms s,
+  List.length six = 6%nat -> new_from_fen K tbl (join_sp six) = Ok p0 -> Inv p0 ->
+  fide_game (abs p0) fms s ->
+  ply p0 + N.of_nat (List.length fms) <= 255 -> hmc p0 + N.of_nat (List.length fms) <= 255 ->
+  N.of_nat (List.length fms) <= hist_size ->
+  exists g, new_position_cmd K tbl hist_size (w_fen :: six ++ w_moves :: map fide_text fms) = NPSet g /\
+    abs (g_pos g) = s /\ Inv (g_pos g) /\ List.length (g_hist g) = List.length fms /\
+    exists ms qs, game_line K p0 ms qs /\ map decode ms = fms /\
+                  g_pos g = last qs p0 /\ g_hist g = map hash qs.
+Proof. exact position_fen_reconstructs. Qed.
+Print Assumptions C03_position_fen_reconstructs.
+
+(* games up to 600 plies with the Go build's constants: placement, side to move, castling rights and en-passant target
+   are those of the FIDE game (the byte counters wrap beyond 255 plies, which is why they are not in this statement) *)
+Theorem C03_go_600_plies : forall fms s,
+  fide_game initial fms s -> (List.length fms <= 600)%nat ->
+  exists g, new_position_cmd go_keys unicode_digit_tbl se_history_size
+              (w_startpos :: w_moves :: map fide_text fms) = NPSet g /\
+    b_at (abs (g_pos g)) = b_at s /\ b_turn (abs (g_pos g)) = b_turn s /\
+    b_rights (abs (g_pos g)) = b_rights s /\ b_ep (abs (g_pos g)) = b_ep s /\
+    Inv (g_pos g) /\ List.length (g_hist g) = List.length fms.
+Proof. exact go_position_startpos_reconstructs_600. Qed.
+Print Assumptions C03_go_600_plies.
